@@ -129,6 +129,14 @@ def inject_part(g, spec):
         out.append(("malformed map_condition", dict(spec, map_condition=bad)))
         if spec.get("type") == "map_value":
             out.append(("key must be key-like", dict(spec, key={"value.equal_to": 1})))
+            # the (well-formed) argument of ANOTHER kind of part: an argument unknown to this part type, in long and in short form
+            out.append(("argument of another part type", dict(spec, index={"index.equal_to": 1})))
+            out.append(("argument of another part type", dict(spec, **{"index.equal_to": 1})))
+            out.append(("argument of another part type", dict(spec, **{g.r.choice(["index.lt", "INDEX.in", "index.gte"]): g.r.choice([1, [0, 1]])})))
+        if spec.get("type") == "list_value":
+            out.append(("argument of another part type", dict(spec, key={"key.equal_to": "a"})))
+            out.append(("argument of another part type", dict(spec, **{"key.equal_to": "a"})))
+            out.append(("argument of another part type", dict(spec, **{g.r.choice(["key.in", "KEY.length.lt", "key.dtype.equal_to"]): g.r.choice([["a"], 3, "str"])})))
     return out
 
 
